@@ -161,15 +161,15 @@ impl CountVectorizerValidParams {
                 None => vocabulary
                     .into_iter()
                     .filter(|(_, (_, abs_count))| {
-                        *abs_count >= min_abs_df && *abs_count <= max_abs_df
+                        let df = *abs_count as f32 / len_f32;
+                        df >= min_df && df <= max_df
                     })
                     .collect(),
                 Some(stopwords) => vocabulary
                     .into_iter()
                     .filter(|(entry, (_, abs_count))| {
-                        *abs_count >= min_abs_df
-                            && *abs_count <= max_abs_df
-                            && !stopwords.contains(entry)
+                        let df = *abs_count as f32 / len_f32;
+                        df >= min_df && df <= max_df && !stopwords.contains(entry)
                     })
                     .collect(),
             }
